@@ -142,11 +142,6 @@ func (pxy *BaseProxy) HandleTCPWorkConnection(workConn net.Conn, m *msg.StartWor
 		err    error
 	)
 	remote = workConn
-	if pxy.limiter != nil {
-		remote = libio.WrapReadWriteCloser(limit.NewReader(workConn, pxy.limiter), limit.NewWriter(workConn, pxy.limiter), func() error {
-			return workConn.Close()
-		})
-	}
 
 	xl.Tracef("handle tcp work connection, useEncryption: %t, useCompression: %t",
 		baseCfg.Transport.UseEncryption, baseCfg.Transport.UseCompression)
@@ -161,6 +156,15 @@ func (pxy *BaseProxy) HandleTCPWorkConnection(workConn net.Conn, m *msg.StartWor
 	var compressionResourceRecycleFn func()
 	if baseCfg.Transport.UseCompression {
 		remote, compressionResourceRecycleFn = libio.WithCompressionFromPool(remote)
+	}
+	if pxy.limiter != nil {
+		// Limit the payload bytes (outside encryption and compression), exactly as frps does in
+		// bandwidthLimitMode "server"; limiting the compressed wire bytes lets compressible traffic
+		// through faster than the configured bandwidthLimit.
+		limited := remote
+		remote = libio.WrapReadWriteCloser(limit.NewReader(limited, pxy.limiter), limit.NewWriter(limited, pxy.limiter), func() error {
+			return limited.Close()
+		})
 	}
 
 	// check if we need to send proxy protocol info
